@@ -159,6 +159,37 @@ def check(ctx):
         ins = [c for c in f.calls if short_path(c.path) == "HashMap::insert" and "StructInfo" in " ".join(c.generics)]
         if len(ad) != 1:
             r4.bad(V(r4.id, f.id, "add_dependencies-calls:%d" % len(ad), "expected one add_dependencies call"))
+        # the set recorded as a type's edges is built for that type only: it is created (HashSet::new / clear) inside the iteration that resolves
+        # the type — a scratch set that lives across iterations makes every type inherit the edges of the ones resolved before it
+        for c in ad:
+            o_ = f.origin(c.args[-1]) if c.args else ("?",)
+            while o_[0] == "proj":
+                o_ = o_[1]
+            if o_[0] == "call" and o_[1].name in ("clone", "to_owned") and o_[1].args:
+                o_ = f.origin(o_[1].args[0])
+                while o_[0] == "proj":
+                    o_ = o_[1]
+            if o_[0] == "call" and o_[1].name in ("new", "default", "with_capacity", "collect", "from_iter"):
+                ha = f.natural_loop_heads(c.bb)
+                hn = f.natural_loop_heads(o_[1].bb)
+                # the set must be created inside every loop that surrounds the add_dependencies call (each such loop iterates over types)
+                outside = [h for h in ha if h not in hn]
+                # ... or emptied at the start of the iteration: a clear()/drain() of that very set inside those loops, before the record is made
+                if outside:
+                    for c2 in f.calls:
+                        if c2.name in ("clear", "drain") and c2.args and f.dominates(c2.bb, c.bb) and all(h in f.natural_loop_heads(c2.bb) for h in outside):
+                            o2 = f.origin(c2.args[0])
+                            while o2[0] == "proj":
+                                o2 = o2[1]
+                            if o2[0] == "call" and o2[1] is o_[1]:
+                                outside = []
+                                break
+                if outside:
+                    r4.bad(V(r4.id, f.id, "dependency-set-outlives-type", "the dependency set handed to add_dependencies is created outside the loop over the resolved types and reused: edges of earlier types leak into later ones (false cycles, wrong order)", o_[1].file, o_[1].line))
+                else:
+                    r4.ok("the dependency set is created per resolved type")
+            else:
+                r4.notes.append("dependency-set origin not a constructor: %s" % f.describe_origin(o_)[:80])
         for c in ad:
             extra = []
             for (bb, keep, lose) in f.filters_in_iteration(c.bb):
